@@ -115,6 +115,7 @@ Igmp3ReportEl(n, recs, tag) ==
 
 Emit(fam, top, parts) ==
   PrintT(ToJson([k |-> "pkt", fam |-> fam, top |-> top.n, ops |-> top.ops, rt |-> [i \in DOMAIN parts |-> parts[i].n] \o <<top.n>>,
+                 entry |-> top.tree.T, kind |-> top.tree.T, frame |-> EncPkt(top.tree),
                  trees |-> [x \in {top.n} \cup {parts[i].n : i \in DOMAIN parts} |->
                               IF x = top.n THEN top.tree ELSE parts[CHOOSE i \in DOMAIN parts : parts[i].n = x].tree]]))
 SmallPay == BufEl("p", <<222, 173, 190, 239>>)
@@ -178,8 +179,44 @@ NextIGMP == \/ \E kind \in 1..4, tag \in {1, 9} : c' = <<"v12", kind, tag>> /\ E
                  /\ c' = <<"v3r", nrec, nsrc>>
                  /\ LET recs == [i \in 1..nrec |-> GroupRecEl("r" \o ToString(i), 1 + (i % 6), (nsrc + i) % 6, 10 * i)] IN
                     Emit("IGMP", Igmp3ReportEl("g", recs, nrec + nsrc), recs)
+\* base frames for the totality check (C08): for every decoder entry point a few well-formed inputs written by EncPkt
+DhcpTree(tag, hlen, opts) ==
+  [T |-> "DHCP", Operation |-> <<1 + (tag % 2)>>, HardwareType |-> <<1>>, HardwareLen |-> <<hlen>>, HardwareOpts |-> <<0>>, Xid |-> V(tag, 4), Secs |-> V(tag + 1, 2),
+   Flags |-> <<128, 0>>, ClientIP |-> V(tag + 2, 4), YourIP |-> V(tag + 3, 4), ServerIP |-> V(tag + 4, 4), GatewayIP |-> V(tag + 5, 4),
+   ClientHWAddr |-> V(tag + 6, hlen), ServerName |-> V(tag + 7, 64), File |-> V(tag + 8, 128), Options |-> opts]
+DOpt(tag, data) == [Tag |-> <<tag>>, Data |-> data]
+BaseTrees ==
+  { EthEl("e", 0, 0, 0, <<8, 0>>, Ip4El("p", 4, 5, 0, 0, 0, 0, 17, 1, 10), 1).tree,
+    EthEl("e", 3, 0, 77, <<8, 0>>, Ip4El("p", 4, 7, 1, 1, 2, 9, 1, 2, 6), 2).tree,
+    EthEl("e", 0, 0, 0, <<8, 6>>, ArpEl("p", 3, 2), 3).tree,
+    EthEl("e", 1, 1, 4095, <<134, 221>>, Ip6El("p", 6, 9, 4660, <<"hbh", "rt", "fr">>, 17, 4, 7, 2, 5, TRUE), 4).tree,
+    EthEl("e", 0, 0, 0, <<134, 221>>, Ip6El("p", 6, 0, 1, <<"rt", "hbh">>, 58, 5, 4, 3, 0, FALSE), 5).tree,
+    EthEl("e", 0, 0, 0, <<136, 204>>, BufEl("p", V(6, 20)), 6).tree,
+    [T |-> "VLAN", TPID |-> <<129, 0>>, PCP |-> <<5>>, DEI |-> <<1>>, VID |-> <<1, 1>>],
+    ArpEl("p", 7, 1).tree,
+    Ip4El("p", 4, 5, 0, 0, 0, 0, 17, 8, 12).tree, Ip4El("p", 4, 15, 63, 3, 7, 8191, 1, 9, 4).tree, Ip4El("p", 4, 6, 0, 0, 0, 0, 6, 10, 20).tree,
+    Ip6El("p", 6, 255, 1048575, <<>>, 58, 11, 8, 0, 0, FALSE).tree, Ip6El("p", 6, 1, 2, <<"hbh">>, 17, 12, 3, 1, 0, FALSE).tree,
+    Ip6El("p", 6, 1, 2, <<"fr", "rt", "hbh">>, 6, 13, 9, 3, 100, TRUE).tree,
+    HbhEl("h", 58, 0, 14).tree, HbhEl("h", 17, 3, 15).tree, RtEl("r", 58, 0, 16).tree, RtEl("r", 44, 2, 17).tree, FragEl("f", 17, 100, TRUE, 18).tree,
+    OptEl("o", 5, 0, 19).tree, OptEl("o", 194, 4, 20).tree,
+    IcmpEl("x", 21, 0).tree, IcmpEl("x", 22, 12).tree, UdpEl("x", 23, 0).tree, UdpEl("x", 24, 20).tree, TcpEl("x", 25, 5, 18, 0).tree, TcpEl("x", 26, 8, 63, 16).tree,
+    Igmp12El("g", 1, 27).tree, Igmp2QueryEl("g", 28).tree, Igmp3QueryEl("g", TRUE, 7, 0, 29).tree, Igmp3QueryEl("g", FALSE, 2, 3, 30).tree,
+    GroupRecEl("r", 4, 0, 31).tree, GroupRecEl("r", 1, 2, 32).tree,
+    Igmp3ReportEl("g", <<>>, 33).tree, Igmp3ReportEl("g", <<GroupRecEl("r1", 1, 1, 34), GroupRecEl("r2", 6, 3, 35)>>, 36).tree,
+    DhcpTree(37, 6, <<DOpt(53, <<1>>), DOpt(61, V(38, 6))>>), DhcpTree(39, 16, <<DOpt(0, <<>>), DOpt(53, <<5>>), DOpt(51, V(40, 4)), DOpt(255, <<>>)>>),
+    DhcpTree(41, 0, <<>>),
+    [T |-> "ChassisTLV", Type |-> <<1>>, Subtype |-> <<4>>, Data |-> V(42, 6)], [T |-> "PortTLV", Type |-> <<2>>, Subtype |-> <<7>>, Data |-> V(43, 3)],
+    [T |-> "TTLTLV", Type |-> <<3>>, Seconds |-> <<0, 120>>] }
+\* DHCP option lists are also decoded on their own
+OptLists == { <<>>, <<DOpt(53, <<1>>)>>, <<DOpt(0, <<>>), DOpt(1, V(1, 4)), DOpt(3, V(2, 8)), DOpt(255, <<>>)>>, <<DOpt(12, V(3, 40)), DOpt(60, <<>>)>> }
+NextBASE == \/ \E t \in BaseTrees :
+                 /\ c' = <<t>>
+                 /\ PrintT(ToJson([entry |-> t.T, kind |-> t.T, frame |-> EncPkt(t)]))
+            \/ \E ol \in OptLists :
+                 /\ c' = <<"opts", ol>>
+                 /\ PrintT(ToJson([entry |-> "DHCPOptions", kind |-> "DHCPOptions", frame |-> Flat([i \in DOMAIN ol |-> EncDhcpOpt(ol[i])]) \o <<255>>]))
 Init == c = <<>>
 Next == c = <<>> /\ CASE Family = "VLAN" -> NextVLAN [] Family = "ETH" -> NextETH [] Family = "IP4" -> NextIP4 [] Family = "IP6" -> NextIP6
-                      [] Family = "FRAG" -> NextFRAG [] Family = "TCP" -> NextTCP [] Family = "L4" -> NextL4 [] Family = "IGMP" -> NextIGMP
+                      [] Family = "FRAG" -> NextFRAG [] Family = "TCP" -> NextTCP [] Family = "L4" -> NextL4 [] Family = "IGMP" -> NextIGMP [] Family = "BASE" -> NextBASE
 Spec == Init /\ [][Next]_c
 =============================================================================
